@@ -79,6 +79,8 @@ def _case(draw, tier):
         "fmt": draw(st.sampled_from(["tsv", "tsv", "parquet"])),
         # ensemble rescoring: every PSM gets the average of all fold models
         "ensemble": ensemble,
+        # joint modelling: a second, shorter collection (the leading half of the table in a file of its own) is brewed together with the first
+        "second": draw(st.sampled_from([False, False, True])),
     }
 
 
@@ -134,6 +136,14 @@ def _build_inputs(case, tmp):
         df.to_parquet(path, index=False)
     else:
         df.to_csv(path, sep="\t", index=False)
+    if case.get("second"):
+        path2 = Path(tmp) / f"input_second{ext}"
+        half = df.iloc[: max(len(df) // 2, 1)]
+        if ext == ".parquet":
+            half.to_parquet(path2, index=False)
+        else:
+            half.to_csv(path2, sep="\t", index=False)
+        case["_path2"] = str(path2)
     fasta = Path(tmp) / "db.fasta"
     lines = []
     nprot = 25
@@ -190,7 +200,7 @@ def _run_once(case, tmp, workers, tag, models_in=None):
     out = Path(tmp) / f"out_{tag}"
     out.mkdir()
     res = {}
-    psms = mokapot.read_pin([path], max_workers=workers)
+    psms = mokapot.read_pin([path] + ([Path(case["_path2"])] if case.get("_path2") else []), max_workers=workers)
     twin = mokapot.read_pin([path], max_workers=1)[0]
     folds_idx = twin._split(case["folds"], np.random.default_rng(case["brew_seed"]))
     res["folds"] = _sha(json.dumps([sorted(int(i) for i in f) for f in folds_idx]).encode())
@@ -204,6 +214,9 @@ def _run_once(case, tmp, workers, tag, models_in=None):
                                             subset_max_train=cap, ensemble=bool(case.get("ensemble")))
     res["models"] = _model_digest(models)
     res["scores"] = _sha(b"".join(np.asarray(s, dtype=float).ravel().tobytes() for s in scores) + str(list(descs)).encode())
+    if len(psms) > 1:
+        # (models and scores of the joint analysis are digested above; the confidence steps below follow the first collection)
+        psms, scores, descs = psms[:1], scores[:1], descs[:1]
     prot = None
     if case["proteins"]:
         prot = mokapot.read_fasta(str(fasta), min_length=6, missed_cleavages=0)
@@ -329,6 +342,8 @@ def check(case):
             require(r["files"].get(f) == A["files"][f], "differs:model-order", f"models in order {p}: result file {f} differs")
         nperm += 1
     classes = [case["learner"], f"folds{case['folds']}", f"key{case['key']}", case["fmt"]]
+    if case.get("second"):
+        classes.append("two-collections-brewed-jointly")
     if case.get("ensemble"):
         classes.append("ensemble")
         if 1 < max(case["w1"], case["w2"]) and min(max(case["w1"], 1), max(case["w2"], 1)) < case["folds"]:
